@@ -30,6 +30,9 @@ def run(pid, tier, seed):
     scs = [{"kind": k, "dir": d_, "ops": ops, "feeds": feeds, "deadline": dl}
            for k in ("conn", "connctx", "pconn") for d_ in ("r", "w") for ops, feeds in shapes
            for dl in (False, True)]
+    # several callers on one wrapper at the same time (one of them under the context that is cancelled)
+    scs += [{"kind": k, "dir": d_, "ops": 2, "feeds": feeds, "deadline": False, "par": True}
+            for k in ("conn", "connctx", "pconn") for d_ in ("r", "w") for feeds in (1, 2)]
     d = vlib.scratch("ctx-")
     scen = os.path.join(d, "scen.ndjson")
     with open(scen, "w") as f:
